@@ -115,6 +115,9 @@ def Pred (Q : Pos) (x : UnMv) : Prop :=
 /-- in mode `includeAllEpSquares = false` an e.p. square of the predecessor is reported only for the e.p. capture -/
 def isEpUn (Q : Pos) (x : UnMv) : Bool := kind (Q.at x.m.t) == 6 && x.ui.ep == some x.m.t
 
+/-- the same un-move with the predecessor's e.p. square forgotten -/
+def UnMv.noEp (x : UnMv) : UnMv := { m := x.m, ui := { cap := x.ui.cap, castle := x.ui.castle, ep := none } }
+
 /-- `Pred` evaluated directly with the forward rules on the predecessor that `unmake` builds -/
 def predB (Q : Pos) (x : UnMv) : Bool :=
   let P := unmake Q x.m x.ui
